@@ -75,6 +75,11 @@ func BuildUniverse(root string, apps int, small bool, shards int) *Universe {
 		add("Str", decl(ty, "Str", RawType(KIface, "interface{ String() string }")))
 		add("func", RawType(KFunc, "func()"))
 		add("chan", RawType(KChan, "chan int"))
+		// named complex / bool types WITH constants: not enums (enums are integers, floats and strings), plain named basics
+		add("NC1", decl(ty, "NC1", Basic("complex128"), Const{"CRe1", "1"}, Const{"CIm1", "2i"}))
+		add("NC2", decl(ty, "NC2", Basic("complex128"), Const{"CRe2", "1"}, Const{"CIm2", "2i"}))
+		add("NB1", decl(ty, "NB1", Basic("bool"), Const{"BYes1", "true"}))
+		add("NB2", decl(ty2, "NB2", Basic("bool"), Const{"BYes2", "true"}))
 	}
 	types := append([]*Type{}, leaves...)
 	lbls := append([]string{}, labels...)
